@@ -121,6 +121,7 @@ def _install_events(engine):
         if OBS.cur is not None:
             OBS.cur['stmts'].append(st)
         if OBS.on_stmt is not None:
+            OBS.conn = conn
             OBS.on_stmt(len(OBS.stmts) - 1, st, parameters)
 
     @event.listens_for(engine, 'begin')
